@@ -148,12 +148,30 @@ def run_one(tape, cfg):
                         tok = tokenize(v2)
                     elif var == "explode":
                         nexpl[0] += 1
+                        flag = (None, True, False)[op["i"] % 3]
                         try:
-                            tokenize(tokvals.Exploding(v))
+                            tokenize(tokvals.Exploding(v), ensure_deterministic=flag)
                             problems.append(("exception_swallowed", f"thread {tid}: raising "
                                                                     f"__dask_tokenize__ did not propagate"))
                         except ValueError:
                             pass
+                        # the failed call must leave no trace: neither in the recursion table nor in
+                        # the ensure_deterministic setting seen by later calls of this thread
+                        try:
+                            dt._ENSURE_DETERMINISTIC.get()
+                            problems.append(("state_leaked_after_exception",
+                                             f"thread {tid}: ensure_deterministic={flag} of a tokenize call "
+                                             f"that raised is still set for later calls"))
+                            return
+                        except LookupError:
+                            pass
+                        try:
+                            tokenize(object())        # legal without ensure_deterministic
+                        except TokenizationError:
+                            problems.append(("state_leaked_after_exception",
+                                             f"thread {tid}: after a failed tokenize(ensure_deterministic="
+                                             f"{flag}) a plain tokenize(object()) raises TokenizationError"))
+                            return
                         tok = tokenize(v)
                     elif var == "ensure_det":
                         tok = tokenize(v, ensure_deterministic=True)
